@@ -221,6 +221,75 @@ func runC05(r *core.Run) {
 			return core.Outcome{Class: fmt.Sprint("nodes=", len(t.Code)), Nontrivial: true, Evals: 3}
 		})
 
+	core.Clause(r, "all-bytes-names", core.Opts{Rule: "every byte value 0..255 as a node name: alone, at the start, in the middle and at the end of a name, on a leaf, on an inner node and on the root of a 3-node tree; non-trivial = all"},
+		func(emit func(nwTree) bool) {
+			for b := 0; b < 256; b++ {
+				for _, nm := range []string{string([]byte{byte(b)}), string([]byte{byte(b), 'a'}), string([]byte{'a', byte(b), 'c'}), string([]byte{'a', byte(b)}), string([]byte{byte(b), byte(b)})} {
+					for pos := 0; pos < 3; pos++ {
+						t := defaultNwTree([]int{1, 1, 0})
+						t.Names[pos] = core.S(nm)
+						t.Dists[2] = "1.5"
+						if !emit(t) {
+							return
+						}
+					}
+				}
+			}
+		},
+		func(t nwTree) core.Outcome {
+			if out := checkNewickRoundTrip(t); out.Fail != "" {
+				return out
+			}
+			return core.Outcome{Class: "ok", Nontrivial: true, Evals: 3}
+		})
+
+	var nlens []int
+	for l := 0; l <= 130; l++ {
+		nlens = append(nlens, l)
+	}
+	for _, c := range []int{4096, 8192, 65536} {
+		for l := c - 24; l <= c+8; l++ {
+			nlens = append(nlens, l)
+		}
+	}
+	nlens = append(nlens, 131072, core.Pick(r, 300000, 2000000))
+	r.Bound("long-names", "a 3-node tree followed by a second tree, one name of every length 0..130, every length in [c-24, c+8] for c in {4096, 8192, 65536} (so that the whole text crosses the 4 KiB and 64 KiB buffer boundaries at every offset), 131072 and one larger; plain and needing quotes")
+	core.Clause(r, "long-names", core.Opts{Rule: "names of every listed length (position-dependent content), unquoted and quoted variants; the following tree must still be read; non-trivial = length >= 2"},
+		func(emit func(c05Big) bool) {
+			for _, l := range nlens {
+				if !emit(c05Big{"name", l}) || !emit(c05Big{"quoted-name", l}) {
+					return
+				}
+			}
+		},
+		func(c c05Big) core.Outcome {
+			name := make([]byte, c.N)
+			for i := range name {
+				name[i] = "abcdefghijklmnopqrstuvwxyzABCDEFGHIJKLMNOPQRSTUVWXYZ0123456789"[(i+i/62)%62]
+				if c.Kind == "quoted-name" && i%37 == 5 {
+					name[i] = " '(_"[(i/37)%4]
+				}
+			}
+			t := defaultNwTree([]int{2, 0, 0})
+			t.Names[1] = core.S(name)
+			t.Dists[1] = "0.25"
+			root := t.build()
+			second := defaultNwTree([]int{1, 0}).build()
+			d1, f1 := writeNewickChecked(root)
+			d2, f2 := writeNewickChecked(second)
+			if f1 != "" || f2 != "" {
+				return core.Failf("%s %s", f1, f2)
+			}
+			got, p := readNewickAll(append(append(append([]byte{}, d1...), '\n'), d2...))
+			if p != "" {
+				return core.Failf("Reader panicked/hung with a name of %d bytes: %s", c.N, p)
+			}
+			if len(got) != 2 || got[0].IsErr() || got[1].IsErr() || got[0].Rec != renderNewick(root) || got[1].Rec != renderNewick(second) {
+				return core.Failf("a tree with a %s of %d bytes followed by a second tree reads back as %s", c.Kind, c.N, trunc(renderObs(got), 300))
+			}
+			return core.Outcome{Class: c.Kind, Nontrivial: c.N >= 2, Evals: 3}
+		})
+
 	pool := nwTreePool()
 	seps := []string{"", " ", "\n", "\r\n", "\t "}
 	r.Bound("sequences", fmt.Sprintf("every list of 0..3 trees from a pool of %d, written one after another with each separator of %q after every tree (thorough: every per-gap assignment)", len(pool), seps))
